@@ -215,7 +215,10 @@ impl ExtraAccountMetaList {
         let state = TlvStateBorrowed::unpack(data)?;
         let extra_meta_list = ExtraAccountMetaList::unpack_with_tlv_state::<T>(&state)?;
 
-        let initial_accounts_len = account_infos.len() - extra_meta_list.len();
+        let initial_accounts_len = account_infos
+            .len()
+            .checked_sub(extra_meta_list.len())
+            .ok_or(AccountResolutionError::NotEnoughAccounts)?;
 
         // Convert to `AccountMeta` to check resolved metas
         let provided_metas = account_infos
